@@ -433,3 +433,19 @@ fn c17_stringset_serialize() {
     }
     std::mem::forget(set);
 }
+
+// the empty set is written as an empty object (and not, e.g., as null)
+#[kani::proof]
+#[kani::unwind(12)]
+#[kani::stub(alloc::fmt::format, stubs::format)]
+#[kani::stub(std::hash::RandomState::new, stubs::fixed_random_state)]
+fn c17_stringset_serialize_empty() {
+    let set = StringHashSet::new();
+    let rec = unsafe {
+        record_into(&set, &mut REC);
+        &REC
+    };
+    kani::cover!(true, "empty set serialized");
+    assert!(rec.top.k == tagser::MAP && rec.top.len == 0, "P:c17.empty_stringset_is_an_empty_object");
+    std::mem::forget(set);
+}
